@@ -17,12 +17,12 @@ TRUST = (
 TABLE = {
     "C01": (
         "Hypothesis PBT vs closed-form solution (analytic symbol per mode, exact solution of trig polynomials), semigroup/reversal metamorphic relations",
-        "Every stored mode below Nyquist of every linear stepper class/variant is compared with exp(dt*symbol) written independently from the documented PDE, and physical-space steps of generated trigonometric polynomials with the analytic solution, over D=1..3, odd/even N, L, dt in +-[1e-6,1e6]; semigroup and reversal as metamorphic relations. Grid sizes: enumerated small N plus an 'any N' stratum (wide range incl. floating-point-delicate sizes).",
+        "Every stored mode below Nyquist of every linear stepper class/variant is compared with exp(dt*symbol) written independently from the documented PDE, and physical-space steps of generated trigonometric polynomials with the analytic solution, over D=1..3, odd/even N, L, dt in +-[1e-6,1e6]; semigroup and reversal as metamorphic relations. Grid sizes: enumerated small N plus an 'any N' stratum (wide range incl. floating-point-delicate sizes) and production-size 1D grids (512..6000); generic coefficient lists up to order 8; wave speed c in R incl. 0 and c < 0.",
         "4/C01",
     ),
     "C02": (
         "Hypothesis PBT, differential against an independent NumPy reference (Cox-Matthews ETDRK-p with exact phi functions + documented symbol + documented nonlinearity); convergence-order measurement against scipy solve_ivp",
-        "One ETDRK step of the public integrators and of every semi-linear stepper family is compared per mode with a reference implementation built on exact phi functions for real, imaginary, complex, zero and stiff symbols; measured convergence order corroborates.",
+        "One ETDRK step of the public integrators and of every semi-linear stepper family is compared per mode with a reference implementation built on exact phi functions for real, imaginary, complex, zero and stiff symbols (real symbols also as real-dtype operator arrays); construction/call histories A, B, A of configurations differing in one argument ('siblings') against the reference model of each; measured convergence order corroborates.",
         "4/C02",
     ),
     "C03": (
@@ -67,7 +67,7 @@ TABLE = {
     ),
     "C11": (
         "Hypothesis PBT, norm/energy invariant over rollouts with arbitrary (white-noise, Nyquist) states",
-        "L2 norm non-increase at every step of generated rollouts for all non-amplifying linear configurations, strict decay of every non-constant mode, exact preservation for advection/dispersion on odd N or Nyquist-free states, wave energy conservation. Grid sizes: enumerated small N plus an 'any N' stratum (wide range incl. floating-point-delicate sizes).",
+        "L2 norm non-increase at every step of generated rollouts for all non-amplifying linear configurations, strict decay of every non-constant mode, exact preservation for advection/dispersion on odd N or Nyquist-free states, wave energy conservation (c in R incl. 0). Grid sizes: enumerated small N plus an 'any N' stratum (wide range incl. floating-point-delicate sizes) and production-size 1D grids (512..6000); generic coefficient lists up to order 8.",
         "4/C11",
     ),
     "C12": (
@@ -82,7 +82,7 @@ TABLE = {
     ),
     "C14": (
         "Hypothesis stateful (RuleBasedStateMachine) model-based testing against a Python loop + PBT of wrapper steppers",
-        "A rule-based state machine drives rollout/repeat/stack_sub_trajectories with integer-valued pytree steppers against a plain Python loop model (exact equality); RepeatedStepper/ForcedStepper/build_ic_set against loops.",
+        "A rule-based state machine drives rollout/repeat/stack_sub_trajectories with integer-valued pytree steppers against a plain Python loop model (exact equality), including functions returned by rollout/repeat that are kept and called again with an aux container refilled in place; RepeatedStepper/ForcedStepper/build_ic_set against loops.",
         "4/C14",
     ),
     "C15": (
